@@ -116,7 +116,7 @@ def mk_line_case(seg, secs_text, lw, maxl, permille, syms, fill=FILL, hint=HINT)
     req = (f"wrap.line {lw} {f_cfg(seg, maxl, permille, syms)} {fill} "
            f"{'-' if hint is None else hint} {f_sections(secs)}")
     return req, dict(op="wrap.line", sections=secs_text, lw=lw, max_lines=maxl, permille=permille,
-                     syms=list(syms), fill=fill, hint=hint)
+                     syms=list(syms), fill=fill, hint=hint, request=req)
 
 
 def oracle_wrap_line(rep, seg, case, answer):
@@ -304,23 +304,26 @@ def part_wrap_line(ctx, rep, hook, mdl, seg):
             viol(rep, "hang:wrap_line:no-progress", "wrap_line never terminates: " + got[:60],
                           dict(cases[i], got=got, request=reqs[i]))
     for i in send:
-        a, m, case = impl[i], model[i], cases[i]
-        if a.startswith("ERR"):
-            rep.count("wrap.line:skipped-domain")
-            continue
-        rows = a.count(" R")
-        rep.count("wrap.line:rows=%s" % (rows if rows < 4 else "4+"))
-        rep.count("wrap.line:gen=" + case["gen"])
-        rep.case(key=reqs[i], nontrivial=rows >= 2,
-                 sample=dict(op="wrap.line", lw=case["lw"], max_lines=case["max_lines"],
-                             sections=case["sections"], impl=a) if rows >= 3 else None)
-        if m is not None:
-            rep.corr_case("wrap.line", same(a, m), dict(case, impl=a, model=m, request=reqs[i]))
-        if a.startswith("DIED"):
-            viol(rep, "hang-or-crash:wrap_line", "hook process died or hung in wrap_line: " + a[:80],
-                          dict(case, got=a, request=reqs[i]))
-            continue
-        oracle_wrap_line(rep, seg, case, a)
+        judge_line(rep, seg, cases[i], reqs[i], impl[i], model[i])
+
+
+def judge_line(rep, seg, case, req, a, m):
+    if a.startswith("ERR"):
+        rep.count("wrap.line:skipped-domain")
+        return
+    rows = a.count(" R")
+    rep.count("wrap.line:rows=%s" % (rows if rows < 4 else "4+"))
+    rep.count("wrap.line:gen=" + case.get("gen", "replay"))
+    rep.case(key=req, nontrivial=rows >= 2,
+             sample=dict(op="wrap.line", lw=case["lw"], max_lines=case["max_lines"],
+                         sections=case["sections"], impl=a) if rows >= 3 else None)
+    if m is not None:
+        rep.corr_case("wrap.line", same(a, m), dict(case, impl=a, model=m, request=req))
+    if a.startswith("DIED"):
+        viol(rep, "hang-or-crash:wrap_line", "hook process died or hung in wrap_line: " + a[:80],
+             dict(case, got=a, request=req))
+        return
+    oracle_wrap_line(rep, seg, case, a)
 
 
 # ------------------------------------------------------------------ wrap.block
@@ -418,40 +421,43 @@ def part_block(ctx, rep, hook, mdl, seg):
                 fields.append(f_sections([(i + 1, seg.one(t)) for i, t in enumerate(syn)]))
                 fields.append(f_sections([(i + 1, seg.one(t)) for i, t in enumerate(dif)]))
         reqs.append("wrap.block " + " ".join(fields))
-        cases.append(dict(op="wrap.block", alignment=al, lw=lw, max_lines=maxl, valid_alignment=valid,
+        cases.append(dict(op="wrap.block", alignment=[list(x) for x in al], lw=lw, max_lines=maxl, valid_alignment=valid,
                           minus=[(s_, d_) for _, s_, d_ in sides[0]], plus=[(s_, d_) for _, s_, d_ in sides[1]]))
     model = mdl.ask(reqs, timeout=600) if mdl else [None] * len(reqs)
     send = [i for i, m in enumerate(model) if m != "HANG"]
     rep.count("wrap.block:model-predicts-nontermination", len(reqs) - len(send))
     impl = dict(zip(send, hook.ask([reqs[i] for i in send], timeout=ctx.n(60, 600))))
     for i in send:
-        a, m, case = impl[i], model[i], cases[i]
-        if a.startswith("ERR"):
-            rep.count("wrap.block:skipped-domain")
-            continue
-        rep.case(key=reqs[i], nontrivial=(" R" in a and a.count(" R") > 4 * 1) or a.startswith("PANIC"),
-                 sample=None)
-        rep.count("wrap.block:" + ("panic" if a.startswith("PANIC") else "ok"))
-        if m is not None:
-            rep.corr_case("wrap.block", same(a, m), dict(case, impl=a, model=m, request=reqs[i]))
-        if a.startswith("DIED"):
-            viol(rep, "hang-or-crash:wrap_block", "hook died or hung in wrap_minusplus_block",
-                          dict(case, got=a, request=reqs[i]))
-            continue
-        if a.startswith("PANIC"):
-            msg = unhx(a.split()[1]).decode("utf-8", "replace")
-            if case["valid_alignment"]:
-                if "syntax and diff wrapping differs" in msg:
-                    viol(rep, "panic:wrap_block:syntax-and-diff-wrapping-differs:zero-width-cluster"
-                                  if any(ZW in t for l_ in case["minus"] + case["plus"] for t in l_[0])
-                                  else "panic:wrap_block:syntax-and-diff-wrapping-differs",
-                                  "wrap_minusplus_block panicked on a well-formed alignment: " + msg[:80],
-                                  dict(case, got=msg, request=reqs[i]))
-                else:
-                    viol(rep, "panic:wrap_block", "wrap_minusplus_block panicked on a well-formed alignment: " + msg[:80],
-                                  dict(case, got=msg, request=reqs[i]))
-            continue
-        oracle_block(rep, case, a, reqs[i])
+        judge_block(rep, cases[i], reqs[i], impl[i], model[i])
+
+
+def judge_block(rep, case, req, a, m):
+    if a.startswith("ERR"):
+        rep.count("wrap.block:skipped-domain")
+        return
+    rep.case(key=req, nontrivial=(" R" in a and a.count(" R") > 4 * 1) or a.startswith("PANIC"),
+             sample=None)
+    rep.count("wrap.block:" + ("panic" if a.startswith("PANIC") else "ok"))
+    if m is not None:
+        rep.corr_case("wrap.block", same(a, m), dict(case, impl=a, model=m, request=req))
+    if a.startswith("DIED"):
+        viol(rep, "hang-or-crash:wrap_block", "hook died or hung in wrap_minusplus_block",
+             dict(case, got=a, request=req))
+        return
+    if a.startswith("PANIC"):
+        msg = unhx(a.split()[1]).decode("utf-8", "replace")
+        if case["valid_alignment"]:
+            if "syntax and diff wrapping differs" in msg:
+                viol(rep, "panic:wrap_block:syntax-and-diff-wrapping-differs:zero-width-cluster"
+                     if any(ZW in t for l_ in case["minus"] + case["plus"] for t in l_[0])
+                     else "panic:wrap_block:syntax-and-diff-wrapping-differs",
+                     "wrap_minusplus_block panicked on a well-formed alignment: " + msg[:80],
+                     dict(case, got=msg, request=req))
+            else:
+                viol(rep, "panic:wrap_block", "wrap_minusplus_block panicked on a well-formed alignment: " + msg[:80],
+                     dict(case, got=msg, request=req))
+        return
+    oracle_block(rep, case, a, req)
 
 
 def oracle_block(rep, case, answer, req):
@@ -603,43 +609,48 @@ def part_truncate(ctx, rep, hook, mdl, seg):
     outs = [unhx(a.split()[1]).decode("utf-8", "replace") for a in impl if a.startswith("ok x")]
     out_items = dict(zip(outs, items_of(hook, outs)))
     for req, case, a, m in zip(reqs, cases, impl, model):
-        if a.startswith("ERR"):
-            rep.count(case["op"] + ":skipped-domain")
-            continue
-        rep.case(key=req, nontrivial=case["op"] != "wrap.measure" and case["width"] > case.get("dw", 0))
-        rep.count(case["op"])
-        if m is not None:
-            rep.corr_case(case["op"], same(a, m), dict(case, impl=a, model=m, request=req))
-        if a.startswith("PANIC") or a.startswith("DIED"):
-            viol(rep, "panic:" + case["op"], "panicked: " + a[:60], dict(case, got=a, request=req))
-            continue
-        if case["op"] == "wrap.measure":
-            if int(a.split()[1]) != case["width"]:
-                viol(rep, "measure_text_width:not-sum-of-cluster-widths", "measure differs from the independent sum",
-                              dict(case, got=a))
-            continue
-        out = unhx(a.split()[1]).decode("utf-8", "replace")
-        ow = vis_width(seg, out_items[out])
-        dw = case["dw"]
-        esc_in = re.findall(r"\x1b(?:\[[0-9;]*[A-Za-z]|\][^\x1b]*\x1b\\)", case["s"])
-        esc_out = re.findall(r"\x1b(?:\[[0-9;]*[A-Za-z]|\][^\x1b]*\x1b\\)", out)
-        if case["op"] == "wrap.truncate":
-            cut = case["width"] > dw
-            if not cut and out != case["s"]:
-                viol(rep, "truncate_str:changes-fitting-string", "a string that fits was changed", dict(case, got=out))
-            elif cut and (ow > dw or (case["fill"] and ow != dw and seg.width(re.sub(r"\x1b\[[0-9;]*m", "", case["tail"])) <= dw)):
-                viol(rep, ("truncate_str:wider-than-requested:" + case["cls"]) if ow > dw else "truncate_str:narrower-than-requested",
-                              f"result is {ow} columns wide, requested {dw}", dict(case, got=out))
-            elif cut and esc_out[:len(esc_in)] != esc_in:
-                viol(rep, "truncate_str:drops-escape-sequence", "an escape sequence of the input is missing",
-                              dict(case, got=out))
-        else:
-            if case["side"] == "l" and ow != dw:
-                viol(rep, "pad_panel:left-panel-not-exact:" + (("truncated:" + case["cls"]) if case["width"] > dw else "padded"),
-                              f"left panel is {ow} columns wide, panel width {dw}", dict(case, got=out))
-            elif case["side"] == "r" and ow > max(dw, 0) and case["width"] > dw:
-                viol(rep, "pad_panel:right-panel-too-wide:" + case["cls"], f"right panel is {ow} columns wide, panel width {dw}",
-                              dict(case, got=out))
+        judge_trunc(rep, seg, case, req, a, m, out_items)
+
+
+def judge_trunc(rep, seg, case, req, a, m, out_items):
+    if a.startswith("ERR"):
+        rep.count(case["op"] + ":skipped-domain")
+        return
+    rep.case(key=req, nontrivial=case["op"] != "wrap.measure" and case["width"] > case.get("dw", 0))
+    rep.count(case["op"])
+    case = dict(case, request=req)
+    if m is not None:
+        rep.corr_case(case["op"], same(a, m), dict(case, impl=a, model=m))
+    if a.startswith("PANIC") or a.startswith("DIED"):
+        viol(rep, "panic:" + case["op"], "panicked: " + a[:60], dict(case, got=a))
+        return
+    if case["op"] == "wrap.measure":
+        if int(a.split()[1]) != case["width"]:
+            viol(rep, "measure_text_width:not-sum-of-cluster-widths", "measure differs from the independent sum",
+                 dict(case, got=a))
+        return
+    out = unhx(a.split()[1]).decode("utf-8", "replace")
+    ow = vis_width(seg, out_items[out])
+    dw = case["dw"]
+    esc_in = re.findall(r"\x1b(?:\[[0-9;]*[A-Za-z]|\][^\x1b]*\x1b\\)", case["s"])
+    esc_out = re.findall(r"\x1b(?:\[[0-9;]*[A-Za-z]|\][^\x1b]*\x1b\\)", out)
+    if case["op"] == "wrap.truncate":
+        cut = case["width"] > dw
+        if not cut and out != case["s"]:
+            viol(rep, "truncate_str:changes-fitting-string", "a string that fits was changed", dict(case, got=out))
+        elif cut and (ow > dw or (case["fill"] and ow != dw and seg.width(re.sub(r"\x1b\[[0-9;]*m", "", case["tail"])) <= dw)):
+            viol(rep, ("truncate_str:wider-than-requested:" + case["cls"]) if ow > dw else "truncate_str:narrower-than-requested",
+                 f"result is {ow} columns wide, requested {dw}", dict(case, got=out))
+        elif cut and esc_out[:len(esc_in)] != esc_in:
+            viol(rep, "truncate_str:drops-escape-sequence", "an escape sequence of the input is missing",
+                 dict(case, got=out))
+    else:
+        if case["side"] == "l" and ow != dw:
+            viol(rep, "pad_panel:left-panel-not-exact:" + (("truncated:" + case["cls"]) if case["width"] > dw else "padded"),
+                 f"left panel is {ow} columns wide, panel width {dw}", dict(case, got=out))
+        elif case["side"] == "r" and ow > max(dw, 0) and case["width"] > dw:
+            viol(rep, "pad_panel:right-panel-too-wide:" + case["cls"], f"right panel is {ow} columns wide, panel width {dw}",
+                 dict(case, got=out))
 
 
 def part_panels(ctx, rep, hook, mdl):
@@ -652,13 +663,17 @@ def part_panels(ctx, rep, hook, mdl):
     impl = hook.ask(reqs, timeout=300)
     model = mdl.ask(reqs, timeout=120) if mdl else [None] * len(reqs)
     for req, case, a, m in zip(reqs, cases, impl, model):
-        rep.case(key=req, nontrivial=case["width"] % 2 == 1)
-        if a.startswith("ok") and m is not None:
-            rep.corr_case("wrap.panels", a.split()[:3] == m.split()[:3], dict(case, impl=a, model=m))
-        if a.startswith("ok"):
-            l_, r_ = int(a.split()[1]), int(a.split()[2])
-            if l_ != case["width"] // 2 or l_ + r_ > case["width"] or r_ < l_:
-                viol(rep, "panels:widths", f"panel widths {l_}+{r_} for --width {case['width']}", dict(case, got=a))
+        judge_panels(rep, dict(case, request=req), req, a, m)
+
+
+def judge_panels(rep, case, req, a, m):
+    rep.case(key=req, nontrivial=case["width"] % 2 == 1)
+    if a.startswith("ok") and m is not None:
+        rep.corr_case("wrap.panels", a.split()[:3] == m.split()[:3], dict(case, impl=a, model=m))
+    if a.startswith("ok"):
+        l_, r_ = int(a.split()[1]), int(a.split()[2])
+        if l_ != case["width"] // 2 or l_ + r_ > case["width"] or r_ < l_:
+            viol(rep, "panels:widths", f"panel widths {l_}+{r_} for --width {case['width']}", dict(case, got=a))
 
 
 # ------------------------------------------------------------------ the real binary, --side-by-side
@@ -1076,18 +1091,24 @@ def replay(ctx, rep, obj):
         if m == "HANG":
             got = confirm_hang(ctx, rep, req, case)
             rep.corr_case(op, not got.startswith("ok"), dict(case, impl=got, model=m))
+            rep.case(key=req, nontrivial=True)
             if not got.startswith("ok"):
                 viol(rep, "hang:wrap_line:no-progress", "wrap_line never terminates: " + got[:60], dict(case, got=got))
             return
         a = hook.ask([req], timeout=30)[0]
-        rep.case(key=req, nontrivial=True, sample=dict(request=req, impl=a, model=m))
-        if m is not None:
-            rep.corr_case(op, same(a, m), dict(case, impl=a, model=m))
         if op == "wrap.line":
-            oracle_wrap_line(rep, seg, case, a)
-        elif op == "wrap.block" and a.startswith("ok"):
-            oracle_block(rep, case, a, req)
-        elif a.startswith(("PANIC", "DIED")):
-            viol(rep, "panic:" + str(op), a[:80], dict(case, got=a))
+            case["sections"] = [tuple(x) for x in case["sections"]]
+            judge_line(rep, seg, case, req, a, m)
+        elif op == "wrap.block":
+            judge_block(rep, case, req, a, m)
+        elif op in ("wrap.truncate", "wrap.measure", "wrap.pad_panel"):
+            outs = [unhx(a.split()[1]).decode("utf-8", "replace")] if a.startswith("ok x") else []
+            judge_trunc(rep, seg, case, req, a, m, dict(zip(outs, items_of(hook, outs))))
+        elif op == "wrap.panels":
+            judge_panels(rep, case, req, a, m)
+        else:
+            rep.case(key=req, nontrivial=True)
+            if m is not None:
+                rep.corr_case(str(op), same(a, m), dict(case, impl=a, model=m))
     else:
         run(ctx, rep)
